@@ -22,8 +22,11 @@ def run(ck, progs):
     ck.rule("C15.4", "extract and peek drain the buffer before they read the heap, on every path")
     ck.rule("C15.5", "the drain loop inserts every node in the heap with key = the node's own timestamp and reads the successor from the node")
     ck.rule("C15.6", "the destination buffer is chosen by the routing macro applied to the message's destination")
+    ck.rule("C15.7", "the plain initialisation of a thread's buffer is separated by a thread barrier from every call that can reach a producer "
+                     "(LP_INIT handlers of other threads may already schedule events for this thread)")
     for cfg, P in progs.items():
         _run(ck, P, cfg)
+        _init_before_producers(ck, P, cfg)
 
 
 def _run(ck, P, cfg):
@@ -177,3 +180,32 @@ def _run(ck, P, cfg):
         else:
             ck.holds("C15.4", inst, calls[0].where, "msg_queue_insert_queued() dominates all %d uses of the heap" % len(uses), cfg)
         ck.expect("C15.4", len(uses), 2, "heap uses in %s" % fname)
+
+
+def _init_before_producers(ck, P, cfg):
+    cg = Q.call_graph(P)
+    # the model's handlers are reached through the dispatcher pointer and may call the public scheduling API
+    for k, v in cg.items():
+        if any(x.startswith("<indirect:global_config.dispatcher") for x in v):
+            v.add("ScheduleNewEvent")
+    may_insert = {f for f in cg if "msg_queue_insert" in Q.reachable_functions(P, [f], cg)}
+    n = 0
+    for c in P.callers("msg_queue_init"):
+        f = c.fn
+        if not f.file.startswith("src/"):
+            continue
+        n += 1
+        g = f.cfg
+        bars = {b.id for b in f.calls("sync_thread_barrier")}
+        prods = [x for x in f.calls() if x.callee in may_insert and x.callee != "msg_queue_init"]
+        inst = "init-before-producers@%s" % f.name
+        w = g.escapes(g.position(c), bars, goal="none", goal_ids={x.id for x in prods})
+        if w:
+            first = next(x for x in prods if x.id in g.reachable_from(g.position(c), barrier_ids=bars))
+            ck.violated("C15.7", inst, first.where, "%s() can run on this thread while another thread has not yet executed msg_queue_init(): an event pushed to that thread's buffer in between is wiped by its initialising store (no barrier between the two calls: %s)" % (
+                first.callee, witness_text(f, w)), cfg)
+        elif not prods:
+            ck.inconclusive("C15.7", inst, c.where, "no producer call follows the initialisation in this function", cfg)
+        else:
+            ck.holds("C15.7", inst, c.where, "a thread barrier separates msg_queue_init() from %s" % sorted({x.callee for x in prods}), cfg)
+    ck.expect("C15.7", n, 1, "call sites of msg_queue_init")
